@@ -262,11 +262,15 @@ func (p *IdP) userinfo(w http.ResponseWriter, r *http.Request) {
 	}
 	switch {
 	case !ok || st == "401":
+		// the error document real providers send (RFC 6750): a JSON object, without a subject
 		w.Header().Set("WWW-Authenticate", `Bearer error="invalid_token"`)
+		w.Header().Set("Content-Type", "application/json")
 		w.WriteHeader(401)
+		fmt.Fprint(w, `{"error":"invalid_token","error_description":"The access token is not active"}`)
 	case st == "500":
+		w.Header().Set("Content-Type", "application/json")
 		w.WriteHeader(500)
-		fmt.Fprint(w, "boom")
+		fmt.Fprint(w, `{"error":"server_error"}`)
 	case st == "malformed":
 		w.Header().Set("Content-Type", "application/json")
 		fmt.Fprint(w, `{"sub": `)
